@@ -22,9 +22,9 @@ class V:
         self.checked = len(cur["fields"]) > 1
         self.end = self.br + "." + cur["fields"][1]["name"] if self.checked else None
 
-    def wf(self, n="sbv_n"):
+    def wf(self, n="sbv_n", pins=()):
         """well-formed, non-null view over a fresh buffer of exactly n bytes"""
-        it = [BUF(self.begin, n)]
+        it = [BUF(self.begin, n, pins=pins)]
         if self.checked:
             it.append(SET(self.end, "%s + %s" % (self.begin, n)))
         return it
